@@ -107,8 +107,10 @@ class TriggerObject:
         """
         if self._producer._filter is not None:
             raise ValueError()
-        self._producer._filter = _get_producer_filter(filter)
-        return self
+        # All triggers are immutable: attach the filter to a copy and leave this trigger as it is
+        producer = _get_producer(self)
+        producer._filter = _get_producer_filter(filter)
+        return self.__class__(producer)
 
     only_at = only_on
 
